@@ -221,6 +221,11 @@ func (e *Exchange) IsCacheable(l *log.Logger) bool {
 	if e.ResponseHeaders.Get("Expires") != "" {
 		return true
 	}
+	// An Expires header field with an empty (hence invalid) value is still an
+	// Expires header field: Section 5.3 of [RFC7234] reads it as "already expired".
+	if len(e.ResponseHeaders.Values("Expires")) > 0 {
+		return true
+	}
 
 	// "  *  contains a max-age response directive (see Section 5.2.2.8), or"
 	if _, ok := cacheDirectives["max-age"]; ok {
